@@ -1,6 +1,7 @@
 import ChythonModel.Model.C15Compose
 import ChythonModel.Model.C15Read
 import ChythonModel.Model.C15CgrTokens
+import ChythonModel.Model.C15Hash
 /-!
 Line-protocol driver for C15. One request per line (ints only), one response line.
 
@@ -129,6 +130,15 @@ def handle (line : String) : String :=
       match cgrBondToken ⟨if o ≤ 0 then none else some o.toNat, if p ≤ 0 then none else some p.toNat⟩ with
       | .ok s => "ok " ++ s
       | .error e => "err " ++ e
+    | _ => "bad ints"
+  | "bhash" :: rest =>
+    match parseInts? rest with
+    | some [o, p] => toString (dynBondHash ⟨if o ≤ 0 then none else some o.toNat, if p ≤ 0 then none else some p.toNat⟩)
+    | _ => "bad ints"
+  | "ahash" :: rest =>
+    match parseInts? rest with
+    | some [z, iso, ch, pch, rad, prad] =>
+      toString (dynAtomHash ⟨z.toNat, if iso ≤ 0 then none else some iso.toNat, ch, pch, rad != 0, prad != 0⟩)
     | _ => "bad ints"
   | _ => "bad op"
 
